@@ -21,6 +21,8 @@ package sweeper
 //@   after_call time.(Time).Add#0 ghost loc_cutExt := ret0.ext
 //@   at_call header.TimestampFromTime#0 assert cutoff_is_that_time: arg0.wall == ghost_loc_cutWall && arg0.ext == ghost_loc_cutExt
 //@   after_call header.TimestampFromTime#0 ghost loc_cutoff := uint64(ret0)
+//@   after_call time.Now#1 ghost loc_nowNano := uint64(ret0.UnixNano())
+//@   at_call lmdb.(*Env).View#0 assert cutoff_is_the_whole_retention_before_now: int64(s.conf.RetentionDuration()) >= 0 ==> ghost_loc_cutoff == ite(ghost_loc_nowNano >= uint64(s.conf.RetentionDuration()), ghost_loc_nowNano - uint64(s.conf.RetentionDuration()), 0)
 //@   at_call lmdb.(*Env).Update#0 assert private_only: s.schemaTracksChanges || hasPrefix(dbiName, "_sync")
 
 //@ func (s *Sweeper) sweep$2
